@@ -412,8 +412,55 @@ def run_canon_ops(case, names, n):
     return ok(nontrivial=len(allv) >= 2, **tags)
 
 
+# ----------------------------------------------------------------------------- simulate
+def gen_sim(rng, tier):
+    case = gen_lg(rng, tier)
+    case["n_samples"] = rng.choice([2000, 4000])
+    case["seed"] = rng.choice([0, 1, 7, 42, rng.randrange(10 ** 6)])
+    return case
+
+
+def run_sim(case, drv):
+    """LinearGaussianBayesianNetwork.simulate: reproducible for a seed, one column per node, and the sample moments of the NAMED
+    columns agree with the structural-equation joint within 6.5 standard errors (exact joint from the Lean model)"""
+    import numpy as np
+    names = case["nodes"]
+    n = len(names)
+    m = build_lg(case)
+    r, pos = model_joint(case, drv)
+    N = case["n_samples"]
+    try:
+        df = m.simulate(n=N, seed=case["seed"])
+        df2 = m.simulate(n=N, seed=case["seed"])
+        df3 = m.simulate(n=N, seed=case["seed"] + 1)
+    except Exception as e:
+        return fail(f"simulate raised {type(e).__name__}: {e}", n=n)
+    if sorted(map(str, df.columns)) != sorted(map(str, names)) or len(df) != N:
+        return fail(f"simulate returned columns {list(df.columns)} / {len(df)} rows for nodes {names}, n={N}", n=n)
+    if not (list(df.columns) == list(df2.columns) and np.array_equal(df.values, df2.values)):
+        return fail(f"simulate(seed={case['seed']}) is not reproducible", n=n)
+    if n and np.array_equal(df.values, df3.values):
+        return fail("simulate ignores the seed (seed and seed + 1 give the same sample)", n=n)
+    M = np.array([float(Fraction(x)) for x in r["mean"]])
+    C = np.array([[float(Fraction(x)) for x in rw] for rw in r["cov"]])
+    X = np.column_stack([df[names[v]].values.astype(float) for v in range(n)]) if n else np.zeros((N, 0))
+    mh = X.mean(axis=0) if n else []
+    Ch = np.atleast_2d(np.cov(X, rowvar=False)) if n else np.zeros((0, 0))
+    for v in range(n):
+        i = pos[v]
+        if abs(mh[v] - M[i]) > 6.5 * (C[i, i] / N) ** .5 + 1e-6:
+            return fail(f"simulate: sample mean of {names[v]} = {mh[v]}, joint mean {M[i]} (se {(C[i, i] / N) ** .5})", n=n)
+        for u in range(n):
+            j = pos[u]
+            se = ((C[i, i] * C[j, j] + C[i, j] ** 2) / N) ** .5
+            if abs(Ch[v, u] - C[i, j]) > 6.5 * se + 1e-6:
+                return fail(f"simulate: sample covariance ({names[v]},{names[u]}) = {Ch[v, u]}, joint covariance {C[i, j]} (se {se})", n=n)
+    return ok(nontrivial=bool(case["edges"]), n=n)
+
+
 STREAMS = [
     Stream("joint_predict", gen_joint, run_joint, quick=700, thorough=7000),
     Stream("fit", gen_fit, run_fit, quick=200, thorough=2000),
     Stream("gaussian_distribution", gen_gd, run_gd, quick=400, thorough=4000),
+    Stream("simulate", gen_sim, run_sim, quick=150, thorough=1500),
 ]
